@@ -13,5 +13,6 @@ INVARIANT LawBoundsFromTokens
 INVARIANT LawFeat
 INVARIANT LawAnchorsOnBounds
 INVARIANT LawAnchorsConsistent
-PROPERTY Terminates
+INVARIANT NeverStuck
+PROPERTY RankDecreases
 CHECK_DEADLOCK FALSE
